@@ -1,6 +1,9 @@
 CONTRACTS = 'contracts.base_carver'
 F = 'AutoCarver/carvers/base_carver.py'
 MUTANTS = [
+ (F, 'order_copy.group_list(combi, combi[0])', 'order_copy.group_list(combi, combi[-1])', ['order_apply_combination']),
+ (F, '    order_copy = GroupedList(order)', '    order_copy = order', ['order_apply_combination']),
+ (F, '    for combi in combination:\n        order_copy.group_list', '    for combi in combination[1:]:\n        order_copy.group_list', ['order_apply_combination']),
  (F, '(nb_remaining_groups > 1) | (next_idx == len(order))', '(nb_remaining_groups > 2) | (next_idx == len(order))', None),
  (F, 'for size in range(min_group_size, len(order) + 1):', 'for size in range(min_group_size, len(order)):', None),
  (F, '        all_combinations += [current_combination]', '        all_combinations = all_combinations + [current_combination]', None),
